@@ -195,7 +195,7 @@ func c18RunHistory(c *Ctx, steps []*c18Case, idx int) []c18Obs {
 	for _, k := range steps {
 		if ents, err := os.ReadDir(dir); err == nil {
 			for _, e := range ents {
-				if e.Name() != "README.md" {
+				if e.Name() != "README.md" && e.Name() != "filelist.txt" {
 					os.RemoveAll(filepath.Join(dir, e.Name()))
 				}
 			}
@@ -206,7 +206,10 @@ func c18RunHistory(c *Ctx, steps []*c18Case, idx int) []c18Obs {
 		for _, d := range k.Dirs {
 			os.MkdirAll(filepath.Join(dir, d), 0o755)
 		}
-		MustWrite(filepath.Join(dir, "filelist.txt"), k.listText())
+		// an unchanged list file is left untouched (it stays older than the README.md of the previous run)
+		if b, err := os.ReadFile(filepath.Join(dir, "filelist.txt")); err != nil || string(b) != k.listText() {
+			MustWrite(filepath.Join(dir, "filelist.txt"), k.listText())
+		}
 		r := Run(c.Work, 20*time.Second, 0, nil, filepath.Join(c.Bin, "build_sample_md"), filepath.Join(dir, "filelist.txt"))
 		o := c18Obs{exit: r.Exit, stdout: r.Stdout, stderr: r.Stderr, timedOut: r.TimedOut}
 		if b, err := os.ReadFile(filepath.Join(dir, "README.md")); err == nil {
